@@ -25,6 +25,11 @@ PHASES = [('cfg_add_start', lambda G: CA.cfg_add_new_start_variable(G, 'S')),
 def big_cfg(rng, nv=None):
     nv = nv or rng.randint(23, 30)
     names = list(gen.UPPER[:min(nv, 26)]) + ['V%d' % i for i in range(max(0, nv - 26))]
+    if nv > 26 and rng.random() < 0.6:
+        # extra variables named <hint><number> where the number is near the size of V (a fresh-name shortcut must not land on them)
+        k = nv - 26
+        pool = ['S%d' % nv, 'S%d' % (nv + 1), 'A%d' % nv, 'S0', 'S1', 'A0', 'B%d' % (nv + 1), 'S%d' % (nv - 1)]
+        names = list(gen.UPPER) + pool[:k]
     R = []
     for i, A in enumerate(names):
         rhs = [['t', rng.choice('ab')]] if rng.random() < 0.6 else [['v', rng.choice(names)], ['t', 'a'], ['v', rng.choice(names)]]
@@ -42,7 +47,7 @@ def cases(ctx):
             yield {'G': G}
     for i in range(30 if not thorough else 300):
         yield {'G': gen.unit_chain_cfg(rng)}
-    for nv in (24, 25, 26, 27):       # the 26-letter boundary of cfg_fresh_variable
+    for nv in (24, 25, 26, 27, 27, 28, 29):       # the 26-letter boundary of cfg_fresh_variable
         yield {'G': big_cfg(rng, nv), 'big': True}
     for i in range(6 if not thorough else 60):
         if not thorough or ctx.mine(i):
